@@ -209,7 +209,8 @@ variable {α : Type} [Add α] [Sub α] [Mul α] [Div α] [LT α] [LE α] [Decida
 
 /-- (b) After the bound pre-test (`clipPre`) each kind goes to its typed clipper, and the result is
     wrapped as the code does: no piece ⇒ nil; ONE point / line / polygon left of a multi-geometry ⇒
-    that single geometry; an emptied ring / polygon / bound ⇒ nil.  (Any arithmetic, so also the
+    that single geometry; an emptied ring / polygon / bound ⇒ nil; an EMPTY Bound argument ⇒ nil
+    (`wrapBoundArg`).  (Any arithmetic, so also the
     float64 instance.) -/
 theorem clip_geometry_agrees_typed (eb box : Core.Bound α) :
     (∀ p, Clip.geometry eb box (.point p) = clipPre eb box (.point p) (some (some (.point p)))) ∧
@@ -224,7 +225,7 @@ theorem clip_geometry_agrees_typed (eb box : Core.Bound α) :
     (∀ mp, Clip.geometry eb box (.multiPolygon mp) =
       clipPre eb box (.multiPolygon mp) ((Clip.multiPolygon box mp).map wrapPolys)) ∧
     (∀ a b, Clip.geometry eb box (.bound a b) =
-      clipPre eb box (.bound a b) (some (wrapBound (Clip.clipBound box ⟨a, b⟩)))) :=
+      clipPre eb box (.bound a b) (some (wrapBoundArg ⟨a, b⟩ (Clip.clipBound box ⟨a, b⟩)))) :=
   ⟨clip_point' eb box, clip_multiPoint' eb box, clip_lineString' eb box, clip_multiLineString' eb box,
     clip_ring' eb box, clip_polygon' eb box, clip_multiPolygon' eb box, clip_bound' eb box⟩
 
